@@ -1,4 +1,5 @@
 import IprProofs.Own
+import IprProofs.OwnLinks
 /-!
 # C19 — destroying a Lexicon frees all its memory  *(partial)*
 
@@ -31,9 +32,7 @@ theorem C19_destroyTree_exact (t : Tree Node) : (destroyTree t).Perm (treeBlocks
 theorem C19_destroyTree_once (t : Tree Node) (hd : (treeBlocks t).Nodup) (b : Nat) :
     (destroyTree t).count b = if b ∈ treeBlocks t then 1 else 0 := by
   rw [destroyTree_eq]
-  split
-  · next h => exact List.count_eq_one_of_mem hd h
-  · next h => exact List.count_eq_zero_of_not_mem h
+  exact hd.count
 
 /-- Destroying a table whose nodes are live gives the store back, no erroneous release, for every tree and every store. -/
 theorem C19_destroyTree_frees (t : Tree Node) (h : Heap) (new old : List Nat) (hl : h.live = new ++ old)
@@ -41,6 +40,23 @@ theorem C19_destroyTree_frees (t : Tree Node) (h : Heap) (new old : List Nat) (h
     (h.freeAll (destroyTree t)).live = old ∧ (h.freeAll (destroyTree t)).bad = h.bad := by
   have := freeAll_perm (destroyTree t) new old h hl (by rw [destroyTree_eq]; exact hown)
   exact ⟨this.1, this.2.1⟩
+
+/-- **`destroy_subtree` on the linked structure.**  For every tree laid out at distinct addresses in any store of linked
+    cells (other live cells may surround it), the destructor — run on the links, as written: recurse into `n->left()`,
+    read `n->right()`, release `n`, continue — never reads or releases a cell that is not live, terminates within
+    `size t` visits, releases exactly the cells of the tree and leaves every other cell as it was. -/
+theorem C19_destroy_links_safe (t : Tree Nat) (hnd : (inorder t).Nodup) (pre post : Cells)
+    (hpre : ∀ p ∈ pre, p.1 ∉ inorder t) (fuel : Nat) (hf : size t ≤ fuel) :
+    destroyLinks fuel (pre ++ layout t ++ post) (rootAddr t) = some (without (pre ++ layout t ++ post) (inorder t)) :=
+  destroyLinks_ok t fuel _ hf hnd (laid_layout t hnd pre post hpre)
+
+/-- What is left contains no cell of the tree (each was released) … -/
+theorem C19_destroy_links_releases_all (h : Cells) (as : List Nat) (p : Nat × Cell) (hp : p ∈ without h as) : p.1 ∉ as := by
+  simp [without] at hp; exact hp.2
+
+/-- … and every other cell is still there, unchanged. -/
+theorem C19_destroy_links_keeps_rest (h : Cells) (as : List Nat) (p : Nat × Cell) (hp : p ∈ h) (hn : p.1 ∉ as) : p ∈ without h as := by
+  simp [without, hp, hn]
 
 /-- The ownership invariant holds after **every** construction history: the store consists of the baseline plus exactly
     the blocks the Lexicon owns. -/
@@ -64,15 +80,16 @@ theorem C19_lexicon_balance (h0 : Heap) (hwf : h0.WF) (nT nF : Nat) (ops : List 
     (destroy (run (construct h0 nT nF) ops)).bad = h0.bad :=
   destroy_owns _ (C19_owns h0 hwf nT nF ops)
 
+/-- An arena (a Lexicon with no table and no farm) after the strings of the given lengths were made. -/
+def arenaRun (h0 : Heap) (lens : List Nat) : World := run (construct h0 0 0) (lens.map Op.str)
+
 /-- The arena alone: `~arena` releases every pool ever created — the first one, every regular one and every oversize one —
     for every sequence of string lengths. -/
 theorem C19_destroyArena_all (h0 : Heap) (hwf : h0.WF) (lens : List Nat) :
-    let w := run (construct h0 0 0) (lens.map Op.str)
-    (∃ new, w.heap.live = new ++ h0.live ∧ new.Perm (destroyArena w.lex.arena.chain)) ∧
-    (destroyArena w.lex.arena.chain).Nodup ∧
-    (w.heap.freeAll (destroyArena w.lex.arena.chain)).live = h0.live := by
-  intro w
-  have ho : Owns h0.live h0.bad w := C19_owns h0 hwf 0 0 _
+    (∃ new, (arenaRun h0 lens).heap.live = new ++ h0.live ∧ new.Perm (destroyArena (arenaRun h0 lens).lex.arena.chain)) ∧
+    (destroyArena (arenaRun h0 lens).lex.arena.chain).Nodup ∧
+    ((arenaRun h0 lens).heap.freeAll (destroyArena (arenaRun h0 lens).lex.arena.chain)).live = h0.live := by
+  have ho : Owns h0.live h0.bad (arenaRun h0 lens) := C19_owns h0 hwf 0 0 _
   have htr : ∀ (ops : List Op) (w0 : World), (∀ op ∈ ops, ∃ n, op = Op.str n) →
       (run w0 ops).lex.trees = w0.lex.trees ∧ (run w0 ops).lex.farms = w0.lex.farms := by
     intro ops
@@ -83,14 +100,14 @@ theorem C19_destroyArena_all (h0 : Heap) (hwf : h0.WF) (lens : List Nat) :
       obtain ⟨n, rfl⟩ := hall op (by simp)
       have := ih (step w0 (.str n)) (fun o ho => hall o (by simp [ho]))
       simpa [run, step] using this
-  have hb : blocks w.lex = destroyArena w.lex.arena.chain := by
+  have hb : blocks (arenaRun h0 lens).lex = destroyArena (arenaRun h0 lens).lex.arena.chain := by
     have := htr (lens.map Op.str) (construct h0 0 0) (by intro op hop; simp at hop; obtain ⟨n, _, rfl⟩ := hop; exact ⟨n, rfl⟩)
-    have h1 : w.lex.trees = [] := by simpa [construct] using this.1
-    have h2 : w.lex.farms = [] := by simpa [construct] using this.2
+    have h1 : (arenaRun h0 lens).lex.trees = [] := by rw [arenaRun, this.1]; simp [construct]
+    have h2 : (arenaRun h0 lens).lex.farms = [] := by rw [arenaRun, this.2]; simp [construct]
     simp [blocks, h1, h2, destroyArena_eq]
   obtain ⟨new, hl, hp⟩ := ho.split
   refine ⟨⟨new, hl, by rw [← hb]; exact hp⟩, by rw [← hb]; exact ho.nodup, ?_⟩
-  exact (freeAll_perm _ new h0.live w.heap hl (by rw [← hb]; exact hp)).1
+  exact (freeAll_perm _ new h0.live _ hl (by rw [← hb]; exact hp)).1
 
 /-- An oversize request that does not fit the head pool gets a pool of its own of `poolsz + (n - bufsz)` bytes, spliced
     into the chain (hence owned and released by `C19_destroyArena_all`). -/
@@ -132,14 +149,23 @@ def sampleHistory : List Op :=
 
 def sampleBase : Heap := { live := [5, 3], next := 9, bad := 0 }
 
-example : sampleBase.WF := by decide
+example : sampleBase.WF := by unfold Heap.WF; decide
 example : (run (construct sampleBase 2 1) sampleHistory).lex.treeNodes = 7 := by decide +kernel
-example : (run (construct sampleBase 2 1) sampleHistory).lex.poolSizes = [1048584, 1053048, 1048584] := by decide +kernel
+example : (run (construct sampleBase 2 1) sampleHistory).lex.poolSizes = [1048584, 1048584, 1053048] := by decide +kernel
 example : (run (construct sampleBase 2 1) sampleHistory).heap.live.length = 15 := by decide +kernel
 example : (destroy (run (construct sampleBase 2 1) sampleHistory)).live = [5, 3] := by decide +kernel
 /-- without the table destructor the same history leaks its seven nodes -/
 example : ((run (construct sampleBase 2 1) sampleHistory).heap.freeAll
     (destroyLogNoTreeDtor (run (construct sampleBase 2 1) sampleHistory).lex)).live.length = 9 := by decide +kernel
+/-- the linked destructor on a concrete 5-node tree surrounded by other cells; and the version with the two statements
+    swapped (release `n`, then read `n->right()`) touches dead storage on the very first node -/
+def sampleTree : Tree Nat :=
+  .node .black (.node .red (.node .black .nil 11 .nil) 12 (.node .black .nil 13 .nil)) 14 (.node .black .nil 15 .nil)
+def sampleCells : Cells := [(7, ⟨none, none⟩)] ++ layout sampleTree ++ [(99, ⟨some 7, none⟩)]
+example : destroyLinks 5 sampleCells (rootAddr sampleTree) = some [(7, ⟨none, none⟩), (99, ⟨some 7, none⟩)] := by decide +kernel
+example : destroyLinksSwapped 5 sampleCells (rootAddr sampleTree) = none := by decide +kernel
+example : destroyLinksSwapped 9 (layout (.node .black .nil 1 .nil)) (some 1) = none := by decide +kernel
+
 /-- a double release is seen by the store (so "bad = baseline" in the theorems says something) -/
 example : ((sampleBase.free 5).free 5).bad = 1 := by decide +kernel
 
